@@ -63,15 +63,20 @@ static void pair_case(Out &o, Gen &G, bool thorough) {
       int st = (int)r.range(-1, 1); if (st) x = nextafterf(x, st > 0 ? INFINITY : -INFINITY);
       if (in_box(c, x)) p[c] = x; }
   }
+  // "lone extreme at the ends": one shared point alone reaches the top of the box in x, everything else stays in the lower 40 %, and that
+  // point is placed first or last in each geometry (loops that scan values for a width or a bit length must visit every element)
+  const bool ends = r.chance(20); auto squeeze = [&](float x) { return origin[0] + (x - origin[0]) * 0.4f; };
+  if (ends) { for (auto &p : shared) p[0] = squeeze(p[0]); float top = origin[0] + range; if (!in_box(0, top)) top = nextafterf(top, -INFINITY); if (in_box(0, top)) shared[0][0] = top; }
   Enc e[2];
   for (int s = 0; s < 2; s++) {
     e[s].method = (int)r.below(4); e[s].speed = (int)r.range(0, 10);
     bool mesh = e[s].method >= M_MESH_SEQ;
     int extra = s ? nb : na;
     std::vector<std::array<float, 3>> pts = shared;
-    for (int i = 0; i < extra; i++) { std::array<float, 3> p; for (int c = 0; c < 3; c++) p[c] = inside(c); pts.push_back(p); }
+    for (int i = 0; i < extra; i++) { std::array<float, 3> p; for (int c = 0; c < 3; c++) p[c] = inside(c); if (ends) p[0] = squeeze(p[0]); pts.push_back(p); }
     // independent order
     for (size_t i = pts.size(); i > 1; i--) std::swap(pts[i - 1], pts[r.below(i)]);
+    if (ends) { size_t at = 0; for (size_t i = 0; i < pts.size(); i++) if (pts[i] == shared[0]) at = i; std::swap(pts[at], pts[r.chance(50) ? 0 : pts.size() - 1]); }
     Geo &g = e[s].g; g.nc = 3;
     for (auto &p : pts) for (int c = 0; c < 3; c++) g.flat.push_back(p[c]);
     if (mesh) {
@@ -83,7 +88,9 @@ static void pair_case(Out &o, Gen &G, bool thorough) {
       for (int k = 0; k < more; k++) { uint32_t a = (uint32_t)r.below(n), bb = (uint32_t)r.below(n), c = (uint32_t)r.below(n);
         if (a != bb && bb != c && a != c) g.faces.push_back({a, bb, c}); }
     }
+    g_enc_builtin_compression = !r.chance(25);   // raw (not entropy-coded) value bytes: the decoded values must not depend on it
     e[s].d = encode_decode(g, e[s].method, e[s].speed, b, origin, range);
+    g_enc_builtin_compression = true;
   }
   std::string id = std::string(method_name(e[0].method)) + "/s" + S(e[0].speed) + " vs " + method_name(e[1].method) + "/s" + S(e[1].speed) +
                    " bits=" + S(b) + " origin=" + U(fbits(origin[0])) + "," + U(fbits(origin[1])) + "," + U(fbits(origin[2])) + " range=" + U(fbits(range));
